@@ -63,8 +63,8 @@ class RedisDriver(BaseDriver):
             id_ = filt.pop('id')
             db_record = self._client.hgetall(self._make_record_key(collection, id_))
 
-            # Apply filter criteria
-            if db_record and self._filter_matches(db_record, filt):
+            # Apply filter criteria (a record without fields has no hash, only its id in the set)
+            if self._record_exists(collection, id_, db_record) and self._filter_matches(db_record, filt):
                 db_record['id'] = id_
                 db_records.append(db_record)
         else:  # no single specific id in filt
@@ -135,8 +135,10 @@ class RedisDriver(BaseDriver):
 
             # Retrieve the db record
             db_record = self._client.hgetall(key)
-            if db_record and self._filter_matches(db_record, filt):
-                self._client.hset(key, mapping=db_record_part)
+            if self._record_exists(collection, id_, db_record) and self._filter_matches(db_record, filt):
+                if db_record_part:
+                    self._client.hset(key, mapping=db_record_part)
+
                 modified_count = 1
 
         else:  # no single specific id in filt
@@ -155,9 +157,6 @@ class RedisDriver(BaseDriver):
                 # Actually update the record
                 if db_record_part:
                     self._client.hset(key, mapping=db_record_part)
-
-                else:
-                    self._client.delete(key)
 
                 modified_count += 1
 
@@ -195,13 +194,11 @@ class RedisDriver(BaseDriver):
             key = self._make_record_key(collection, id_)
             db_record = self._client.hgetall(key)
 
-            # Actually remove the record
-            if db_record and self._filter_matches(db_record, filt):
+            # Actually remove the record and its id from set
+            if self._record_exists(collection, id_, db_record) and self._filter_matches(db_record, filt):
                 self._client.delete(key)
+                self._client.srem(self._make_set_key(collection), id_)
                 removed_count = 1
-
-            # Remove the id from set
-            self._client.srem(self._make_set_key(collection), id_)
 
         else:  # no single specific id in filt
             ids_to_remove = set()
@@ -269,6 +266,9 @@ class RedisDriver(BaseDriver):
 
         else:  # assuming simple value
             return record_value == filt_value
+
+    def _record_exists(self, collection: str, id_: Id, db_record: GenericJSONDict) -> bool:
+        return bool(db_record) or bool(self._client.sismember(self._make_set_key(collection), id_))
 
     def _get_next_id(self, collection: str) -> Id:
         return str(self._client.incr(self._make_sequence_key(collection)))
